@@ -27,10 +27,10 @@ Item(B,i) ==
       n  == Small(be) IN
   CASE mt \in {0,1} -> Mk(mt, ai, be, i, nx-1)
     [] mt = 7 -> Mk(7, ai, be, i, nx-1)
-    [] mt \in {2,3} -> IF n < 0 \/ nx + n - 1 > Len(B) THEN ERR("eof-string")
+    [] mt \in {2,3} -> IF n < 0 THEN ERR("huge-string") ELSE IF nx + n - 1 > Len(B) THEN ERR("eof-string")
                        ELSE [Mk(mt, ai, be, i, nx+n-1) EXCEPT !.str = SubSeq(B, nx, nx+n-1)]
-    [] mt = 4 -> IF n < 0 \/ n > Len(B) - nx + 1 THEN ERR("eof-array") ELSE Kids(B, nx, n, Mk(4, ai, be, i, nx-1))
-    [] mt = 5 -> IF n < 0 \/ 2*n > Len(B) - nx + 1 THEN ERR("eof-map") ELSE Kids(B, nx, 2*n, Mk(5, ai, be, i, nx-1))
+    [] mt = 4 -> IF n < 0 THEN ERR("huge-array") ELSE IF n > Len(B) - nx + 1 THEN ERR("eof-array") ELSE Kids(B, nx, n, Mk(4, ai, be, i, nx-1))
+    [] mt = 5 -> IF n < 0 THEN ERR("huge-map") ELSE IF 2*n > Len(B) - nx + 1 THEN ERR("eof-map") ELSE Kids(B, nx, 2*n, Mk(5, ai, be, i, nx-1))
     [] mt = 6 -> LET k == Item(B, nx) IN IF IsErr(k) THEN k ELSE IF k.why = "break" THEN ERR("break-in-tag")
                  ELSE [Mk(6, ai, be, i, k.hi) EXCEPT !.kids = <<k>>]
 Kids(B,i,n,acc) == IF n = 0 THEN acc ELSE
